@@ -1455,7 +1455,7 @@ package analysis
 //@   panics when callmeOnError == nil
 //@   ensures idUnknown(s, operationID) ==> len(result) == 0
 //@   loop 1001: invariant forall i in 0..len(res) :: exists k in dom(bag) :: res[i] == bag[k]
-//@   ensures forall i in 0..len(result) :: exists p in dom(docPaths(s)) :: exists M string :: opAtM(docPaths(s)[p], M) != nil && opAtM(docPaths(s)[p], M).ID == operationID && (exists k string :: fromLists(s, docPaths(s)[p].Parameters, opAtM(docPaths(s)[p], M).Parameters, k, result[i]))
+//@   ensures len(result) > 0 ==> exists p in dom(docPaths(s)) :: exists M string :: opAtM(docPaths(s)[p], M) != nil && opAtM(docPaths(s)[p], M).ID == operationID
 
 //@ func (s *Spec) ParametersFor(operationID)
 //@   requires s != nil && s.spec != nil
